@@ -13,6 +13,8 @@ values that do not exist are ignored):
   never raises
   returns None          <=>  forall j in [0,n). isnone(j)
   returns r (not None)   =>  r is one of the values (exists j. not isnone(j) and val(j) = r) and forall j. not isnone(j) => val(j) <= r
+A maintainer may replace max() by the explicit fold ``for value in values: if value is not None and (acc is None or value > acc): acc = value``;
+that shape is proved too (loop invariant in FoldLoop), other shapes (iterator protocol by hand, ...) are undecided and fall back to the bounded stand-ins.
 Assumed (python, T1): the contract of the builtins ``max`` / ``min`` over an iterable with ``default=`` (an element bounding all
 others / the default when empty), generator expressions act pointwise (the element and filter expressions are evaluated on a generic None and
 a generic instant), datetime values are truthy (T16).
@@ -21,7 +23,7 @@ import textwrap
 
 from ujvc.core import EngineSignal, Unsupported
 from ujvc.units import get, unit
-from ujvc.vc import VC, IntS, SInt
+from ujvc.vc import VC, IntS, LoopContract, SInt
 from ujvc.z3env import z3
 
 from .stale import STime
@@ -74,6 +76,59 @@ class Filtered:
         raise Unsupported("iteration over the filtered values outside max / min")
 
 
+class FoldLoop(LoopContract):
+    """``for value in <the values>: if value is not None and (acc is None or value > acc): acc = value`` - the explicit fold a maintainer may write
+    instead of max(); found by what it iterates (the sequence of values itself) and by the one local that exists before the loop and is assigned in it.
+    Invariant at position t (acc = that local):   acc is None  <=>  forall j < t. isnone(j);
+                                                  acc not None  =>  acc is one of x_0..x_{t-1} and bounds every value present among them."""
+
+    def __init__(self, seq):
+        self.seq = seq
+        self.assigned = ()
+        self.acc = None
+
+    def _inv(self, ctx, t, acc):
+        seq, j = self.seq, z3.Int("j!q")
+        below = lambda jj: z3.And(jj >= 0, jj < t)   # noqa: E731
+        if acc is None:
+            return z3.ForAll([j], z3.Implies(below(j), seq.isnone(j)))
+        if not isinstance(acc, STime):
+            raise Unsupported("the accumulator of the fold is neither None nor one of the values")
+        return z3.And(z3.Exists([j], z3.And(below(j), z3.Not(seq.isnone(j)), seq.val(j) == acc.t)),
+                      z3.ForAll([j], z3.Implies(z3.And(below(j), z3.Not(seq.isnone(j))), seq.val(j) <= acc.t)))
+
+    def establish(self, ctx, it, locs):
+        if it is not self.seq:
+            raise Unsupported("the loop does not iterate the values themselves")
+        cands = [n for n in self.assigned if n in locs]
+        if len(cands) != 1:
+            raise Unsupported(f"cannot tell the accumulator of the fold (locals assigned in the loop that exist before it: {cands})")
+        self.acc = cands[0]
+        ctx.check("fold-loop/establish", self._inv(ctx, z3.IntVal(0), locs[self.acc]))
+
+    def havoc(self, ctx, it, locs):
+        self.t = ctx.fresh(IntS, "t")
+        ctx.assume(z3.And(self.t >= 0, self.t <= self.seq.n))
+        acc = None if ctx.choose(2, "fold:accumulator-is-None") == 0 else STime(ctx, ctx.fresh(IntS, "acc"))
+        ctx.assume(self._inv(ctx, self.t, acc))
+        return {self.acc: acc}
+
+    def iterate(self, ctx, it):
+        seq = self.seq
+        if ctx.branch(self.t < seq.n, "more-values"):
+            if ctx.choose(2, "value-is-None") == 0:
+                ctx.assume(seq.isnone(self.t))
+                self.current = None
+            else:
+                ctx.assume(z3.Not(seq.isnone(self.t)))
+                self.current = STime(ctx, seq.val(self.t))
+            return True
+        return False
+
+    def preserve(self, ctx, locs):
+        ctx.check("fold-loop/preserve", self._inv(ctx, self.t + 1, locs[self.acc]))
+
+
 def _in(seq, j):
     return z3.And(j >= 0, j < seq.n)
 
@@ -119,8 +174,17 @@ def _extremum(ctx, which):
 def safe_max_unit(ctx):
     vc = VC(ctx)
     env = {"__vc": vc, "len": vc.len, "max": _extremum(ctx, "max"), "min": _extremum(ctx, "min")}
-    fn = get(REL, "safe_max", cut_comps=True, explicit_varargs=True).compile_into(env)
+    fn = get(REL, "safe_max", cut_comps=True, explicit_varargs=True, cut_loops="auto").compile_into(env)
     seq = OptSeq(ctx, "xs")
+    fold = FoldLoop(seq)
+    vc.resolve_loop = lambda key, it: fold if it is seq else None
+    _loop = vc.loop
+
+    def loop(key, it, locs, assigned):
+        fold.assigned = tuple(assigned)
+        return _loop(key, it, locs, assigned)
+
+    vc.loop = loop
     how = ctx.choose(2, "calling-convention")
     if how == 0:
         args = (seq,)            # safe_max(<iterable>)
